@@ -325,10 +325,10 @@ Section AdminCalls.
   Lemma chown_admin slm name uid gid :
     clean_but (if win v then Some EOpNotPermitted else None) (snd (chown_gen slm s v name uid gid)).
   Proof.
-    unfold chown_gen. rewrite Ha. cbn [negb]. rewrite andb_false_r. cbn [orb].
+    unfold chown_gen.
     destruct (win v); [cbn [snd]; apply clean_allowed|]. cbv zeta. facts name slm. set (r := search_node s v name slm) in *.
     destruct (sr_child r) as [c|]; [|cl0]. destruct (negb _); [cl0|].
-    destruct (get (f_heap s) c); cl0.
+    destruct (get (f_heap s) c); [|cl0]. rewrite (chown_ok_admin _ _ _ _ Ha). cbn [negb]. rewrite andb_false_r. cl0.
   Qed.
 
   Lemma chtimes_admin name : clean_but None (chtimes s v name).
